@@ -612,3 +612,11 @@ func ChainSize(ps []Payload) int {
 	}
 	return n
 }
+
+// Field describes one field written by the reference encoder (offset, width, kind); used by the
+// structure-aware mutators.
+type Field struct {
+	Off   int    `json:"off"`
+	Width int    `json:"w"`
+	Kind  string `json:"kind"`
+}
